@@ -119,6 +119,10 @@ def _tree(rng, k, base, ops):
             ops.append({"op": "mkfile", "path": os.path.join(d, n), "content": OTHER[n]})
     if k["coincidence"]:
         ops.append({"op": "mkfile", "path": os.path.join(rng.choice(dirs), f"x_{DEFAULT_WS}.py"), "content": "z = 0\n"})
+    if rng.random() < 0.2:
+        # names and contents that are not ASCII, a name with blanks
+        ops.append({"op": "mkfile", "path": os.path.join(rng.choice(dirs), "m\u00fcn\u00ef \u540d.py"), "content": "s = '\u00e4\u540d'\n"})
+        ops.append({"op": "mkfile", "path": os.path.join(rng.choice(dirs), "d\u00efr \u540d", "inner.py"), "content": "t = 1\n"})
     if k["symlinks"]:
         kind = rng.choice(["file_in", "file_out", "dir_out", "loop", "dangling"])
         d = rng.choice(dirs)
